@@ -41,6 +41,9 @@ func runC15(c *Ctx) {
 	if pds := c.Load("ds"); pds != nil {
 		checkOmapRemovedKeepsLinks(r, pds)
 	}
+	// pooled hooks are queued on the worker pool's Stack: what is pushed there wakes a consumer and is
+	// handed out again by Pop / PopOrWait (a queue the rules cannot relate to its model fails closed)
+	checkStackWakeRows(r, p)
 	// (1) Trigger family
 	nTrig := 0
 	for _, fd := range p.AllFuncDecls(ev) {
